@@ -74,7 +74,7 @@ def enc_const(c):
 
 
 def build_lscr(handlers, constants=(), props=(), globs=(), scr_num=1, cont_scr_num=-1, factory_name_idx=-1, wide_consts=False):
-    """handlers: list of dict(name=idx, args=[idx], locals=[idx], code=bytes); constants: list of ("s"|"i"|"f", value);
+    """handlers: list of dict(name=idx, args=[idx], locals=[idx], globals=[idx], code=bytes); constants: list of ("s"|"i"|"f", value);
     props/globs: name-table indices. Layout: header(92) code+name tables, property table, global table, function records,
     constant records, constant data. wide_consts=True emits 8-byte constant records (type as uint32)."""
     pos = 92
@@ -90,14 +90,17 @@ def build_lscr(handlers, constants=(), props=(), globs=(), scr_num=1, cont_scr_n
         blob += b"".join(struct.pack(">h", a) for a in h.get("args", []))
         loc_off = pos + len(blob)
         blob += b"".join(struct.pack(">h", a) for a in h.get("locals", []))
-        recs.append((h["name"], len(code), code_off, len(h.get("args", [])), args_off, len(h.get("locals", [])), loc_off))
+        glob_off = pos + len(blob)
+        blob += b"".join(struct.pack(">h", a) for a in h.get("globals", []))
+        recs.append((h["name"], len(code), code_off, len(h.get("args", [])), args_off, len(h.get("locals", [])), loc_off,
+                     len(h.get("globals", [])), glob_off))
     prb = pos + len(blob)
     blob += b"".join(struct.pack(">h", a) for a in props)
     grb = pos + len(blob)
     blob += b"".join(struct.pack(">h", a) for a in globs)
     frb = pos + len(blob)
-    for name, clen, coff, na, aoff, nl, loff in recs:
-        blob += struct.pack(">hhiihihihiihhi", name, 0, clen, coff, na, aoff, nl, loff, 0, 0, 0, 0, 0, 0)
+    for name, clen, coff, na, aoff, nl, loff, ng, goff in recs:
+        blob += struct.pack(">hhiihihihiihhi", name, 0, clen, coff, na, aoff, nl, loff, ng, goff, 0, 0, 0, 0)
     crb = pos + len(blob)
     cdata = b""
     crecs = b""
@@ -293,6 +296,7 @@ def gen_proptables():
                             ("ast.variable", "KNOWN_SYMBOLS", "knownSymbolsVariable"),
                             ("ast.constant_val", "KNOWN_SYMBOLS", "knownSymbolsConstant"),
                             ("ast.function_op", "LIST_FUNCTIONS", "listFunctions"),
+                            ("ast.function_op", "GO_WORDS", "goWords"),
                             ("ast.constant_val", "PREDEFINED_CONSTANTS", "predefinedConstants"),
                             ("ast.constant_val", "REPLACEMENT_CONSTANTS", "replacementConstants")):
         m = importlib.import_module("drxtract.lingosrc." + mod)
@@ -670,6 +674,9 @@ class HandlerGen:
             self.h("callstmt")
             nm = self.r.choice([None, b"put", b"put", b"return", b"sound", b"go", b"exit", b"new", b"append", b"getPos", b"me", b"continue"])
             n = self.r.choice([0, 1, 1, 2, 3])
+            if nm == b"go" and self.r.random() < 0.5:
+                # go loop / go next / go previous (the word is a symbol), also with other symbols
+                return Frag(bytes([0x45, self.nm(self.r.choice([b"loop", b"next", b"playFile", None])), 0x42, 0x01, 0x57, self.nm(nm)]))
             if nm == b"sound":
                 code = Frag(bytes([0x45, self.nm(self.r.choice([b"playFile", b"fadeIn", b"stop", None]))]))
                 for _ in range(n): code += self.expr(depth + 1)
@@ -739,11 +746,11 @@ class HandlerGen:
         if x < 0.86 and in_loop:
             self.h("exitrepeat")
             return Frag(bytes([0x93, 0, 0]), [0])
-        if x < 0.90 and not in_tell:
+        if x < 0.90 and (not in_tell or self.r.random() < 0.3):      # tell blocks may nest
             self.h("tell")
             # now and then the block is never closed: context.tell_object stays set for the rest of the script
             return self.expr(1) + bytes([0x1C]) + self.block(body_n(), depth + 1, in_loop, True) + (bytes([0x1D]) if self.r.random() > 4 * self.wild else b"")
-        kind = self.r.choice(["while", "with", "down", "in"] if self.nlocals else ["while"])
+        kind = self.r.choice(["while", "with", "down", "in", "withglobal"] if self.nlocals else ["while", "withglobal"])
         body = self.block(body_n(), depth + 1, True, in_tell)
         if kind == "while":
             c = self.expr(1)
@@ -753,6 +760,11 @@ class HandlerGen:
             pre = self.expr(1) + bytes([0x52, i])
             head = Frag(bytes([0x4C, i])) + self.expr(1) + bytes([0x0D if kind == "with" else 0x11])
             tail = Frag(bytes([0x41, 0x01 if kind == "with" else 0xFF, 0x4C, i, 0x05, 0x52, i]))
+        elif kind == "withglobal":
+            g = self.nm()
+            pre = self.expr(1) + bytes([0x4F, g])
+            head = Frag(bytes([0x49, g])) + self.expr(1) + bytes([0x0D])
+            tail = Frag(bytes([0x41, 0x01, 0x49, g, 0x05, 0x4F, g]))
         else:
             i = self.off(self.nlocals)
             pre = self.expr(1) + bytes([0x64, 0x00, 0x43, 0x01, 0x57, self.nm(b"count"), 0x41, 0x01])
@@ -820,8 +832,9 @@ def rand_script(rng, wild=0.008, hist=None, max_stmts=6):
         if kind == "factory" and nargs:
             args[0] = -1 if rng.random() < 0.8 else idx.get(b"me", 0)
         hname = rng.choice([None, b"new", b"birth", b"mNew", b"exitFrame", b"b", b"t"])
+        hglobs = [rng.choice([rng.randrange(0, len(names)), rng.randrange(0, len(names)), -1, len(names)]) for _ in range(rng.choice([0, 0, 0, 1, 3]))]
         handlers.append(dict(name=idx.get(hname, rng.randrange(len(names))) if hname else rng.randrange(-1, len(names)),
-                             args=args, locals=[rng.randrange(0, len(names)) for _ in range(nlocals)], code=code))
+                             args=args, locals=[rng.randrange(0, len(names)) for _ in range(nlocals)], globals=hglobs, code=code))
     props = [rng.randrange(0, len(names)) for _ in range(rng.choice([1, 2, 5]))] if kind in ("property", "factory") and rng.random() < 0.9 else []
     if kind == "common" and rng.random() < 0.1:
         props = [rng.randrange(0, len(names))]
